@@ -259,7 +259,7 @@ def strategies():
             tags.append(len(out) - 1)
             budget -= 1
         # blobs that look like a tree / commit / tag of the same set
-        for _ in range(draw(st.integers(0, 2)) if budget > 0 and (trees or commits or tags) else 0):
+        for _ in range(draw(st.integers(0, 2)) if (trees or commits or tags) else 0):
             out.append(("X", draw(st.sampled_from(trees + commits + tags)), draw(st.sampled_from([b"", b"", b"\n", b"x"]))))
         return out
 
